@@ -24,7 +24,7 @@ CHECKS = {
     "C18": (
         "model_checking",
         "breadth-first search over histories of {edit grammar, edit lexer, change one builder option, build} executed on the real builders (one child process per build), with canonical-state de-duplication and a clean-build differential oracle",
-        "State = grammar version (6: two token sets, other productions, conflicts, syntax error, warning), lexer version (4: two valid, invalid, token missing), eleven builder options, contents and logical modification times of the two generated files. All histories of up to 4 events (thorough 6, with the edit-in-the-same-tick deviation) and up to 3 (4) builds are explored breadth-first, de-duplicated on the canonical state, each build executed by the real CTParserBuilder / CTLexerBuilder in its own process (both as two separate steps and as the lexer builder driving the parser builder). After every build: outcome and generated files (timestamps blanked) must equal those of a clean build of the same sources and settings in an empty directory; when the clean build fails nothing of an earlier version may be left; regenerated() must be false and the file untouched exactly when neither source nor settings changed since the last successful build; an identical lexer output must not be rewritten. Phase 2 starts from every (grammar, lexer) pair with the reporting options switched off and explores build ; one change ; build, so that caches written under other settings are reached.",
+        "State = grammar version (6: two token sets, other productions, conflicts, syntax error, warning), lexer version (4: two valid, invalid, token missing), eleven builder options, contents and logical modification times of the two generated files. All histories of up to 4 events (thorough 6, with the edit-in-the-same-tick deviation) and up to 3 (4) builds are explored breadth-first, de-duplicated on the canonical state, each build executed by the real CTParserBuilder / CTLexerBuilder in its own process (both as two separate steps and as the lexer builder driving the parser builder). After every build: outcome and generated files (timestamps blanked) must equal those of a clean build of the same sources and settings in an empty directory; when the clean build fails nothing of an earlier version may be left; regenerated() must be false and the file untouched exactly when neither source nor settings changed since the last successful build; an identical lexer output must not be rewritten. Phase 2 starts from every (grammar, lexer) pair with the reporting options switched off, and from a 220-token grammar / lexer pair whose recorded settings string is several kilobytes long, and explores build ; one change ; build, so that caches written under other settings are reached.",
         "Modification times are logical and set by the harness (the builders only read them); clocks running backwards are out of scope.",
         "DESIGN.md 3/C18",
     ),
@@ -59,14 +59,14 @@ CHECKS = {
     "C09": (
         "model_checking",
         "bounded-exhaustive enumeration of lex specifications x id maps x input strings against a direct maximal-munch reference lexer with a plain state stack",
-        "Every ordered list of up to 3 rules over a 9-regex menu (overlapping, alternation, repetition, multi-byte, dot) with every named/skip assignment; every list of up to 2 (thorough 3) rules over {a, b, ab} x every start-state prefix (none, inclusive, exclusive, both, INITIAL) x every target operation (none, replace, push, pop on inclusive/exclusive/INITIAL) x named/skip; every three-rule stack-operation specification (push / replace / pop incl. pushing the bottom state onto itself) ; every subset of {case_insensitive, !dot_matches_new_line, !multi_line} on a flag-sensitive menu; a case-folding family (rules k, ks, [a-z], s under both settings of case_insensitive against inputs over {k, s, KELVIN SIGN, LONG S, a}: a case-insensitive match can be longer in the input than in the pattern); each against every input string up to length 5-6 over an alphabet with a two-byte character and a newline. The whole lexeme / error sequence is compared with a reference that re-implements rule activation, longest match, earliest rule on ties, push / pop / replace on a plain (not run-length) stack and the single error at the first unmatched position. set_rule_ids is run with every map over subsets of the rule names plus a foreign name and its two result sets and the subsequent lexing are compared.",
+        "Every ordered list of up to 3 rules over a 9-regex menu (overlapping, alternation, repetition, multi-byte, dot) with every named/skip assignment; every list of up to 2 (thorough 3) rules over {a, b, ab} x every start-state prefix (none, inclusive, exclusive, both, INITIAL) x every target operation (none, replace, push, pop on inclusive/exclusive/INITIAL) x named/skip; every three-rule stack-operation specification (push / replace / pop incl. pushing the bottom state onto itself) ; every subset of {case_insensitive, !dot_matches_new_line, !multi_line} on a flag-sensitive menu; a case-folding family (rules k, ks, [a-z], s under both settings of case_insensitive against inputs over {k, s, KELVIN SIGN, LONG S, a}: a case-insensitive match can be longer in the input than in the pattern); each against every input string up to length 5-6 over an alphabet with a two-byte character and a newline. The whole lexeme / error sequence is compared with a reference that re-implements rule activation, longest match, earliest rule on ties, push / pop / replace on a plain (not run-length) stack and the single error at the first unmatched position. set_rule_ids is run with every map over subsets of the rule names plus a foreign name (once with ids far from the rule indices, once with ids 0, 1, .. that coincide with them) and its two result sets and the subsequent lexing are compared.",
         "The meaning of each regular expression is the regex crate's on both sides. Result order of set_rule_ids as pinned by the repository's own test.",
         "DESIGN.md 3/C09",
     ),
     "C12": (
         "model_checking",
         "bounded-exhaustive enumeration of input strings (all strings over a lexical-class alphabet up to a length; context prefix x all short strings; all single edits of seeds) through every parser entry point in watched child processes",
-        "For each of nine entry points (ASTWithValidityInfo::new + YaccGrammar::new for the five yacc kinds, ASTWithValidityInfo/YaccGrammar::from_str, LRNonStreamingLexerDef::from_str, GrmtoolsSectionParser::parse optional/required): every string of up to 3 (thorough 4) symbols over a 37-symbol alphabet with a representative of every lexical class incl. multi-byte characters and every class of white space the parsers distinguish (blank, tab, LF, CR, VT, FF, NEL, line separator, no-break space, left-to-right mark); every one of ~50 context prefixes followed by every string of up to 2 (3) symbols; every truncation and every single-character deletion / substitution / insertion of the seed specifications (hand-written ones and the repository's examples); decimal strings around 2^8, 2^16, 2^32, 2^64, 2^128 in every numeric position. Oracle: returns within the limit, no panic, a value or a non-empty error list, every span of every error and warning within the text and on character boundaries, and the diagnostic formatter renders it.",
+        "For each of nine entry points (ASTWithValidityInfo::new + YaccGrammar::new for the five yacc kinds, ASTWithValidityInfo/YaccGrammar::from_str, LRNonStreamingLexerDef::from_str, GrmtoolsSectionParser::parse optional/required): every string of up to 3 (thorough 4) symbols over a 37-symbol alphabet with a representative of every lexical class incl. multi-byte characters and every class of white space the parsers distinguish (blank, tab, LF, CR, VT, FF, NEL, line separator, no-break space, left-to-right mark); every one of ~50 context prefixes followed by every string of up to 2 (3) symbols; every truncation and every single-character deletion / substitution / insertion of the seed specifications (hand-written ones - among them a Grmtools grammar whose rules are written in several pieces with a differently spelt type - and the repository's examples); decimal strings around 2^8, 2^16, 2^32, 2^64, 2^128 in every numeric position. Oracle: returns within the limit, no panic, a value or a non-empty error list, every span of every error and warning within the text and on character boundaries, and the diagnostic formatter renders it.",
         "Pairs of edits and longer free strings are outside the bound. A timeout is a verdict only after the single input was re-run alone with a longer limit.",
         "DESIGN.md 3/C12",
     ),
